@@ -35,7 +35,7 @@ type zcnShadow struct {
 }
 
 func newZcnShadow() *zcnShadow {
-	return &zcnShadow{NextNonce: 1, EthAddrs: []string{"0xAAA1", "0xBBB2", "0xCCC3"}}
+	return &zcnShadow{NextNonce: 1, EthAddrs: []string{"0xAAA1", "0xBBB2", "0xCCC3", "8ba1f109551bd432803012645ac136ddd64dba72", "ddd4", "0x5aAeb6053F3E94C9b9A09f33669435E7Ef1BeAed"}}
 }
 
 func mintStringToSign(ethTxn string, amount uint64, nonce int64, recv string) string {
@@ -114,6 +114,9 @@ func zcnOps() []OpDef {
 			mut := ""
 			if r.Chance(0.1) {
 				addr = fmt.Sprintf("0xNEW%d", r.Intn(1000))
+				if r.Chance(0.4) {
+					addr = fmt.Sprintf("%040x", r.Intn(1000)) // an address written without the 0x prefix
+				}
 			}
 			bal, _ := h.Bal(h.Cur, from.ID)
 			v := []uint64{1, 5, 1e10 - 1, 1e10, 1e10 + 1, 7e10, bal, bal + 1, 0}[r.Intn(9)]
@@ -1186,6 +1189,9 @@ func zbScenarioC19(h *Hist, mons []Monitor) {
 			addr := z.EthAddrs[r.Intn(len(z.EthAddrs))]
 			if r.Chance(0.2) {
 				addr = fmt.Sprintf("0xC19n%d", r.Intn(1000))
+				if r.Chance(0.4) {
+					addr = fmt.Sprintf("%040x", 5000+r.Intn(1000)) // an address written without the 0x prefix
+				}
 			}
 			mut := ""
 			if r.Chance(0.1) {
